@@ -74,7 +74,7 @@ func genC02(seed uint64, tier string) Plan {
 	}
 	p := Plan{Prop: "C02", Seed: seed, Cfg: c, Seg: pick(g, []int{0, 0, 2})}
 	p.Conns = g.conns(c, 3)
-	keys := keyAlphabet[:1+g.n(3)]
+	keys := g.keys(1 + g.n(3))
 	nsteps := 4 + g.n(20)
 	now := int64(946684800)
 	rich := g.p(1, 2)
